@@ -9,6 +9,7 @@ import (
 	"os"
 	"os/exec"
 	"path/filepath"
+	"strconv"
 	"strings"
 	"time"
 
@@ -115,6 +116,67 @@ func (w *World) replay(v *Verdict, repo, dir string) ReplayResult {
 		}
 		args = append(args, ca)
 	}
+	return w.runReplay(fr, args)
+}
+
+// witnessArgs builds arguments from a `witness` line of the contract.
+func (w *World) witnessArgs(fr *FuncResult, wm map[string]string) ([]concreteArg, bool) {
+	fn := fr.Fn
+	qual := func(p *types.Package) string {
+		if p == fn.Pkg.Pkg {
+			return ""
+		}
+		return p.Name()
+	}
+	var args []concreteArg
+	for i, p := range fn.Params {
+		ca := concreteArg{name: p.Name(), goTy: types.TypeString(p.Type(), qual)}
+		if i == 0 && fn.Signature.Recv() != nil {
+			if pt, ok := p.Type().Underlying().(*types.Pointer); ok {
+				if _, isSt := pt.Elem().Underlying().(*types.Struct); isSt {
+					ca.kind = "recv"
+					ca.goTy = types.TypeString(pt.Elem(), qual)
+					args = append(args, ca)
+					continue
+				}
+			}
+		}
+		lit := wm[p.Name()]
+		switch kindOfType(p.Type()) {
+		case KInt:
+			ca.kind = "int"
+			if lit != "" {
+				fmt.Sscan(lit, &ca.ival)
+			}
+		case KBool:
+			ca.kind = "bool"
+			ca.bval = lit == "true"
+		case KSlc:
+			ca.kind = "bytes"
+			if _, ok := p.Type().Underlying().(*types.Basic); ok {
+				ca.kind = "string"
+			}
+			if lit == "" || lit == "nil" {
+				ca.isNil = ca.kind == "bytes"
+			} else {
+				u, err := strconv.Unquote(lit)
+				if err != nil {
+					return nil, false
+				}
+				ca.bytes = []byte(u)
+				ca.cap = int64(len(u))
+			}
+		default:
+			return nil, false
+		}
+		args = append(args, ca)
+	}
+	return args, true
+}
+
+func (w *World) runReplay(fr *FuncResult, args []concreteArg) ReplayResult {
+	rr := ReplayResult{}
+	fn := fr.Fn
 	rr.Attempted = true
 	rr.Inputs = map[string]string{}
 	for _, a := range args {
@@ -377,6 +439,8 @@ func (w *World) concreteCheck(fr *FuncResult, args []concreteArg, obs []string, 
 				fmt.Sscan(fs[1], &ri)
 				rt := fn.Signature.Results().At(ri).Type()
 				switch fs[2] {
+				case "nil":
+					results[ri] = e.zeroVal(rt)
 				case "int":
 					var n int64
 					fmt.Sscan(fs[3], &n)
